@@ -131,6 +131,19 @@ Definition check_state (mode : nat) (cu2 floor2 k2max eps2 : F) (o : state_obs) 
   | None => 1%N
   end.
 
+(* C02 for ANY shape and rank — fewer samples than basis functions, rank-deficient or truncated bases included: the residual
+   vector shown is W (Y - Phi C) for the coefficients shown. Plain products, no solve, so nothing has to be invertible.
+   codes: 0 ok, 2 shapes, 5 the residuals do not belong to the coefficients *)
+Definition check_own_resid (cu2 floor2 : F) (o : state_obs) : nat :=
+  let n := so_n o in let m := so_m o in
+  let A := wscale (so_w o) (so_Phi o) in
+  let B := wscale (so_w o) (so_Y o) in
+  let s := size (so_Y o) in
+  if ~~ [&& wf n m (so_Phi o), wf n s (so_Y o), wf m s (so_C o) & size (so_R o) == (s * n)%N] then 2%N
+  else
+    let bn := Num.max (Num.max (sfro2 B) (sfro2 A * sfro2 (so_C o))) floor2 in
+    if svnrm2 (svsub (so_R o) (flatten (ssub B (smul n A (so_C o))))) <= cu2 * (n * m)%N%:R * bn then 0%N else 5%N.
+
 (* ---------------------------------------------------------------- rank-deficient basis matrices *)
 (* The minimum-norm least-squares solution of an exactly rank-deficient A (n x m, rank r < m), from a
    full-rank factorisation A = Bm * D found through the columns [sel] (a list of r column indices
